@@ -1,10 +1,286 @@
 (* C09 — reference statistics equal direct computation and are additive.
-   (theorems are added in stage 2) *)
-From Coq Require Import ZArith List Bool.
-From CTM Require Import Base.Sx Model.Stats.
+   Property theorems only: each is closed by `exact <lemma>` (lemmas in Proofs/StatsP.v). *)
+From Coq Require Import ZArith List Bool Arith Permutation.
+From CTM Require Import Base.Sx Base.SortX Model.Tree Model.Stats Proofs.StatsP.
 Import ListNotations.
 Open Scope Z_scope.
 
 Example c09_example_stats :
   stats_of_rows 8 2 [[8; 4]; [0; 16]; [9; 7]] = mk_summary 3 [17; 27] [145; 321] [2; 3] [1; 1] [2; 1].
 Proof. vm_compute. reflexivity. Qed.
+
+(* ------------------------------------------------------------------ *)
+(* the summary of a list of expression rows is additive under concatenation:
+   this is what makes every chunking of the cells give the same table *)
+Theorem c09_additive : forall D ng a b,
+  Forall (fun r => length r = ng) a -> Forall (fun r => length r = ng) b ->
+  stats_of_rows D ng (a ++ b) = sadd (stats_of_rows D ng a) (stats_of_rows D ng b).
+Proof. exact stats_additive. Qed.
+Print Assumptions c09_additive.
+
+(* (summary, sadd, szero ng) is a commutative monoid on the well-formed summaries
+   (all five vectors of length ng), closed under sadd, and contains every stats_of_rows *)
+Theorem c09_commutative_monoid : forall ng,
+  (forall a b, sadd a b = sadd b a) /\
+  (forall a b c, sadd (sadd a b) c = sadd a (sadd b c)) /\
+  (forall a, swf ng a -> sadd (szero ng) a = a /\ sadd a (szero ng) = a) /\
+  (forall a b, swf ng a -> swf ng b -> swf ng (sadd a b)) /\
+  swf ng (szero ng) /\
+  (forall D rows, Forall (fun r => length r = ng) rows -> swf ng (stats_of_rows D ng rows)) /\
+  (forall D, stats_of_rows D ng [] = szero ng).
+Proof. exact monoid_laws. Qed.
+Print Assumptions c09_commutative_monoid.
+
+(* the order of the cells is irrelevant *)
+Theorem c09_order_irrelevant : forall D ng a b,
+  Forall (fun r => length r = ng) a -> Permutation a b ->
+  stats_of_rows D ng a = stats_of_rows D ng b.
+Proof. exact stats_perm. Qed.
+Print Assumptions c09_order_irrelevant.
+
+Example c09_additive_nonvacuous :
+  Forall (fun r => length r = 2%nat) [[8; 4]; [0; 16]] /\ Forall (fun r => length r = 2%nat) [[9; 7]] /\
+  stats_of_rows 8 2 ([[8; 4]; [0; 16]] ++ [[9; 7]]) =
+  sadd (mk_summary 2 [8; 20] [64; 272] [1; 2] [0; 1] [1; 1]) (mk_summary 1 [9; 7] [81; 49] [1; 1] [1; 0] [1; 0]).
+Proof. split; [repeat constructor|]. split; [repeat constructor|]. vm_compute. reflexivity. Qed.
+
+(* ------------------------------------------------------------------ *)
+(* For every split of the cells into files, every rows_at_a_time >= 1, every worker
+   count >= 1: the run does not fail (unless no file holds a cell of the taxonomy: the
+   code's "final_output is None" error) and row r of the written table is stats_of_rows
+   of exactly the cells whose name the taxonomy sends to the cluster of row r; a cell the
+   taxonomy does not name is in no `members` list.  The lookup is characterised by the
+   taxonomy's leaf level (cluster -> cell names, a later entry wins as in the dict).
+   (hypotheses = what the code enforces or the input guarantees: cluster names unique
+   (keys of a dict), every file has ng genes in the same order (else Err E_GENES) and
+   rows of ng numbers). *)
+Theorem c09_partition_independent : forall D leaf files rows_at_a_time n_processors ng,
+  NoDup (map fst leaf) -> (1 <= rows_at_a_time)%nat -> (1 <= n_processors)%nat ->
+  files_wf ng files ->
+  exists lookup,
+    (forall cell,
+      dict_get cell lookup =
+      match dict_get cell (cell_to_cluster leaf) with
+      | Some cl => option_map Z.of_nat (zassoc cl (cluster_to_row (map fst leaf)))
+      | None => None
+      end) /\
+    precompute D leaf files rows_at_a_time n_processors =
+      if existsb (named lookup) (all_cells files)
+      then Ok (cluster_to_row (map fst leaf),
+               map (fun r => stats_of_rows D ng (members lookup (Z.of_nat r) (all_cells files)))
+                   (seq 0 (length leaf)))
+      else Err E_NOWORK.
+Proof. exact table_is_direct. Qed.
+Print Assumptions c09_partition_independent.
+
+(* hence two runs over the same multiset of cells — however spread over files, in whatever
+   order, with whatever chunk size and worker count — write the same table *)
+Theorem c09_partition_independent_pairwise : forall D leaf files files' rows rows' p p' ng,
+  NoDup (map fst leaf) -> (1 <= rows)%nat -> (1 <= rows')%nat -> (1 <= p)%nat -> (1 <= p')%nat ->
+  files_wf ng files -> files_wf ng files' ->
+  Permutation (all_cells files) (all_cells files') ->
+  precompute D leaf files rows p = precompute D leaf files' rows' p'.
+Proof. exact partition_independent. Qed.
+Print Assumptions c09_partition_independent_pairwise.
+
+(* cells not named by the taxonomy contribute nothing: removing them changes no row *)
+Theorem c09_unlabelled_contribute_nothing : forall D ng lookup r cells,
+  stats_of_rows D ng (members lookup r cells) =
+  stats_of_rows D ng (members lookup r (filter (named lookup) cells)).
+Proof. exact unnamed_contribute_nothing. Qed.
+Print Assumptions c09_unlabelled_contribute_nothing.
+
+Definition c09_leaf : level := [(20, [1; 2; 5]); (10, [3]); (30, [])].
+Definition c09_files : list h5ad :=
+  [ mk_h5ad [100; 101] [(1, [8; 4]); (9, [16; 16]); (3, [0; 16])];
+    mk_h5ad [100; 101] [(5, [9; 7]); (2, [1; 1])] ].
+Definition c09_files' : list h5ad :=
+  [ mk_h5ad [100; 101] [(2, [1; 1])]; mk_h5ad [100; 101] [(3, [0; 16]); (5, [9; 7])];
+    mk_h5ad [100; 101] [(9, [16; 16]); (1, [8; 4])] ].
+Example c09_partition_nonvacuous :
+  NoDup (map fst c09_leaf) /\ files_wf 2 c09_files /\ files_wf 2 c09_files' /\
+  Permutation (all_cells c09_files) (all_cells c09_files') /\
+  precompute 8 c09_leaf c09_files 2 3 = precompute 8 c09_leaf c09_files' 1 2 /\
+  precompute 8 c09_leaf c09_files 2 3 =
+    Ok ([(10, 0%nat); (20, 1%nat); (30, 2%nat)],
+        [ mk_summary 1 [0; 16] [0; 256] [0; 1] [0; 1] [0; 1];
+          mk_summary 3 [18; 12] [146; 66] [3; 3] [1; 0] [2; 0];
+          szero 2 ]).
+Proof.
+  split; [repeat constructor; cbn; intuition discriminate|].
+  split; [split; [repeat constructor | reflexivity]|].
+  split; [split; [repeat constructor | reflexivity]|].
+  split.
+  - vm_compute.
+    apply Permutation_trans with
+      (l' := [(2, [1; 1]); (1, [8; 4]); (9, [16; 16]); (3, [0; 16]); (5, [9; 7])]).
+    + apply Permutation_sym. apply (Permutation_middle [(1, [8; 4]); (9, [16; 16]); (3, [0; 16]); (5, [9; 7])] [] (2, [1; 1])).
+    + constructor.
+      apply Permutation_trans with (l' := [(3, [0; 16]); (1, [8; 4]); (9, [16; 16]); (5, [9; 7])]).
+      * apply Permutation_sym. apply (Permutation_middle [(1, [8; 4]); (9, [16; 16])] [(5, [9; 7])] (3, [0; 16])).
+      * constructor.
+        apply Permutation_trans with (l' := [(5, [9; 7]); (1, [8; 4]); (9, [16; 16])]).
+        -- apply Permutation_sym. apply (Permutation_middle [(1, [8; 4]); (9, [16; 16])] [] (5, [9; 7])).
+        -- constructor. apply perm_swap.
+  - split; vm_compute; reflexivity.
+Qed.
+
+(* ------------------------------------------------------------------ *)
+(* the work split: with n_per = ceil(N / p), N = the total size of the chunk list and
+   no empty chunk, `work_load[i_worker].append` never raises (i_worker < n_processors at
+   every append), exactly p loads come out and, read in order, they are the chunk list *)
+Theorem c09_work_split_safe : forall n_processors chunks,
+  (1 <= n_processors)%nat -> Forall (fun c => (1 <= spec_size c)%nat) chunks ->
+  exists wl, work_split (total_size chunks) n_processors chunks = Some wl /\
+             length wl = n_processors /\ concat wl = chunks.
+Proof. exact work_split_safe. Qed.
+Print Assumptions c09_work_split_safe.
+
+(* ... and the chunk list the code builds satisfies these hypotheses for every
+   rows_at_a_time >= 1: the loads partition it, and the cells read by the non-empty
+   loads are the cells of the files that overlap the taxonomy, each exactly once *)
+Theorem c09_work_split_covers : forall lookup files rows_at_a_time n_processors,
+  (1 <= rows_at_a_time)%nat -> (1 <= n_processors)%nat ->
+  exists wl, work_split (n_total_cells lookup files) n_processors
+                        (all_chunks lookup 0 files rows_at_a_time) = Some wl /\
+             length wl = n_processors /\ concat wl = all_chunks lookup 0 files rows_at_a_time /\
+             cells_of files (concat (drop_empty wl)) = concat (map f_cells (filter (overlaps lookup) files)).
+Proof. exact work_split_real. Qed.
+Print Assumptions c09_work_split_covers.
+
+Example c09_work_split_nonvacuous :
+  work_split 7 3 [(0, 0, 2); (0, 2, 4); (0, 4, 5); (1, 0, 2)]%nat
+  = Some [[(0, 0, 2); (0, 2, 4)]; [(0, 4, 5); (1, 0, 2)]; []]%nat
+  /\ (* the guard matters: with a wrong total the real loop raises IndexError *)
+  work_split 2 2 [(0, 0, 2); (0, 2, 4); (0, 4, 6)]%nat = None.
+Proof. split; vm_compute; reflexivity. Qed.
+
+(* ------------------------------------------------------------------ *)
+(* rows are addressed by name: cluster_to_row lists the clusters in sorted order against
+   0..n-1, is injective, and the cell lookup sends a cell to the row of the cluster the
+   taxonomy gives it, to a valid row (never the sentinel), and is undefined elsewhere *)
+Theorem c09_rows_addressed_by_name : forall leaf, NoDup (map fst leaf) ->
+  let clusters := map fst leaf in
+  let c2r := cluster_to_row clusters in
+  map fst c2r = zsort clusters /\ map snd c2r = seq 0 (length clusters) /\
+  (forall c, In c clusters -> exists r, zassoc c c2r = Some r /\ (r < length clusters)%nat /\
+                                        nth_error (zsort clusters) r = Some c) /\
+  (forall c1 c2 r, zassoc c1 c2r = Some r -> zassoc c2 c2r = Some r -> c1 = c2) /\
+  exists lookup, cell_to_row c2r (cell_to_cluster leaf) = Some lookup /\
+     Forall (fun cr => 0 <= snd cr < Z.of_nat (length leaf) /\ snd cr <> bad_row_idx) lookup /\
+     (forall cell cl, dict_get cell (cell_to_cluster leaf) = Some cl ->
+        exists r, zassoc cl c2r = Some r /\ dict_get cell lookup = Some (Z.of_nat r)) /\
+     (forall cell, dict_get cell (cell_to_cluster leaf) = None -> dict_get cell lookup = None).
+Proof. exact rows_by_name. Qed.
+Print Assumptions c09_rows_addressed_by_name.
+
+(* ------------------------------------------------------------------ *)
+(* merging per-dataset files: the base file is one with the most cells overall; every
+   row of the result is a row of some input file, and no input file has more cells in
+   that row *)
+Theorem c09_merge_keeps_largest : forall files most T,
+  NoDup (map p_path files) ->
+  merge_precompute files = Ok (most, T) ->
+  In most files /\
+  (forall f, In f files -> total_cells f <= total_cells most) /\
+  length T = length (p_tab most) /\
+  forall r s, nth_error T r = Some s ->
+     (exists f, In f files /\ nth_error (p_tab f) r = Some s) /\
+     (forall f s', In f files -> nth_error (p_tab f) r = Some s' -> s_n s' <= s_n s).
+Proof. exact merge_keeps_largest. Qed.
+Print Assumptions c09_merge_keeps_largest.
+
+(* ties: the row kept is that of the FIRST file, in the order (base file, then the others
+   by sorted path), that attains the maximal count *)
+Theorem c09_merge_tie_rule : forall files most T r s,
+  NoDup (map p_path files) ->
+  merge_precompute files = Ok (most, T) -> nth_error T r = Some s ->
+  let visit := most :: filter (fun f => negb (p_path f =? p_path most)) (psort files) in
+  exists i f, nth_error visit i = Some f /\ nth_error (p_tab f) r = Some s /\
+    forall j g s', (j < i)%nat -> nth_error visit j = Some g -> nth_error (p_tab g) r = Some s' -> s_n s' < s_n s.
+Proof. exact merge_tie_rule. Qed.
+Print Assumptions c09_merge_tie_rule.
+
+Definition c09_pf (path : Z) (rows : list Z) : pfile :=
+  mk_pfile path [[(10, [0]); (20, [1])]] [(10, 0%nat); (20, 1%nat)] [100]
+           (map (fun n => mk_summary n [n] [n] [n] [0] [n]) rows).
+Example c09_merge_nonvacuous :
+  NoDup (map p_path [c09_pf 3 [5; 1]; c09_pf 1 [2; 7]; c09_pf 2 [5; 7]]) /\
+  exists most T,
+    merge_precompute [c09_pf 3 [5; 1]; c09_pf 1 [2; 7]; c09_pf 2 [5; 7]] = Ok (most, T) /\
+    p_path most = 2 /\ map s_n T = [5; 7].
+Proof.
+  split; [repeat constructor; cbn; intuition discriminate|].
+  eexists. eexists. split; [vm_compute; reflexivity|]. split; reflexivity.
+Qed.
+
+(* ------------------------------------------------------------------ *)
+(* truncation.
+   FULL STATEMENT (c09_truncation, not proved in this form):
+     if `data` is the table written for the taxonomy `old_tree` over the cells `cells`, and
+     truncate ng old_tree new_hier old_c2r data = Ok (new_tree, new_c2r, T), then
+     (new_c2r, T) is what `precompute` writes for `new_tree` over the same cells.
+   PROVED (c09_truncation_partial): the table-level half, for every new_hier (dropping the
+   leaf level, inner levels, several levels):  with lvl = the deepest old level kept,
+     - lvl = old leaf level: row map and table unchanged;
+     - otherwise: the new row map lists the new tree's leaves against 0..n-1, and the row of
+       EVERY new leaf L is stats_of_rows of all cells sitting in the rows of those old leaves
+       whose ancestor at level lvl IN THE OLD TREE is L (zero if none) - by additivity.
+   MISSING for the full statement: that the ancestor relation of the old tree is the parent
+   structure of new_tree (nodes (leaf_level new_tree) = the nodes of old level lvl, each with
+   the union of its descendants' cells) and that new_tree validates, hence has distinct
+   leaves: these are C10's c10_drop_preserves lemmas about drop_level/drop_leaf_level
+   (Proofs/TreeP.v, not part of this area).  Here `NoDup (nodes (leaf_level nt))` is a
+   hypothesis; `NoDup` of the old leaves and of the old row map are what the writer produced
+   (c09_rows_addressed_by_name). *)
+Theorem c09_truncation_partial : forall D nc0 ng lookup cells old_tree new_hier old_c2r nt nc T,
+  Forall (fun c => length (snd c) = ng) cells ->
+  NoDup (nodes (leaf_level old_tree)) -> NoDup (map fst old_c2r) -> NoDup (map snd old_c2r) ->
+  NoDup (nodes (leaf_level nt)) ->
+  truncate ng old_tree new_hier old_c2r (direct D nc0 ng lookup cells) = Ok (nt, nc, T) ->
+  let lvl := last (filter (fun l => nat_mem l new_hier) (seq 0 (length old_tree))) 0%nat in
+  (lvl = (length old_tree - 1)%nat /\ nc = old_c2r /\ T = direct D nc0 ng lookup cells) \/
+  (lvl <> (length old_tree - 1)%nat /\
+    nc = combine (nodes (leaf_level nt)) (seq 0 (length (nodes (leaf_level nt)))) /\
+    length T = length (nodes (leaf_level nt)) /\
+    forall L dst, dict_get L nc = Some dst ->
+      exists src,
+        opt_map (fun o => dict_get o old_c2r)
+                (filter (anc_is (ancestor_at old_tree lvl) L) (nodes (leaf_level old_tree))) = Some src /\
+        nth_error T dst = Some (stats_of_rows D ng (members_of lookup (map Z.of_nat src) cells))).
+Proof. exact truncation_collapse. Qed.
+Print Assumptions c09_truncation_partial.
+
+(* new_leaf_to_old_leaves: distinct new leaves; the group of L = the old leaves with ancestor L *)
+Theorem c09_truncation_groups : forall anc olds g, group_by anc olds [] = Some g ->
+  NoDup (map fst g) /\
+  forall L os, In (L, os) g <-> (os = filter (anc_is anc L) olds /\ os <> []).
+Proof. exact group_by_spec. Qed.
+Print Assumptions c09_truncation_groups.
+
+(* summing rows that hold the statistics of disjoint sets of cells = statistics of the union *)
+Theorem c09_collapse_is_additive : forall D ng lookup cells,
+  Forall (fun c => length (snd c) = ng) cells -> forall rs, NoDup rs ->
+  sum_rows ng (map (fun r => stats_of_rows D ng (members lookup r cells)) rs)
+  = stats_of_rows D ng (members_of lookup rs cells).
+Proof. exact sum_of_stats. Qed.
+Print Assumptions c09_collapse_is_additive.
+
+(* three levels; leaves 11,12 under 5 and 13 under 6; drop the leaf level *)
+Definition c09_tree : tree :=
+  [ [(1, [5; 6])]; [(5, [11; 12]); (6, [13])]; [(11, [0]); (12, [1; 2]); (13, [3])] ].
+Definition c09_cells : list cell := [(0, [8; 4]); (1, [0; 16]); (2, [9; 7]); (3, [1; 1]); (4, [5; 5])].
+Definition c09_lookup : list (Z * Z) := [(0, 0); (1, 1); (2, 1); (3, 2)].
+Example c09_truncation_nonvacuous :
+  let data := direct 8 3 2 c09_lookup c09_cells in
+  let old_c2r := [(11, 0%nat); (12, 1%nat); (13, 2%nat)] in
+  NoDup (nodes (leaf_level c09_tree)) /\
+  exists nt nc T,
+    truncate 2 c09_tree [0; 1]%nat old_c2r data = Ok (nt, nc, T) /\
+    NoDup (nodes (leaf_level nt)) /\ nc = [(5, 0%nat); (6, 1%nat)] /\
+    T = [ stats_of_rows 8 2 [[8; 4]; [0; 16]; [9; 7]]; stats_of_rows 8 2 [[1; 1]] ].
+Proof.
+  cbv zeta. split; [repeat constructor; cbn; intuition discriminate|].
+  eexists. eexists. eexists. split; [vm_compute; reflexivity|].
+  split; [repeat constructor; cbn; intuition discriminate|]. split; reflexivity.
+Qed.
